@@ -177,7 +177,9 @@ def _digest(res, r, argv, stdin, files, sigbase, structured):
 # bystander helpers (model-free)
 
 def _classify(bi, bo):
-    if sorted(bi) == sorted(bo):
+    if bi == bo:
+        return "value-type-or-key-order-changed"      # equal for Python's ==: number vs string, or key order inside a map
+    if sorted(map(repr, bi)) == sorted(map(repr, bo)):
         return "reordered"
     si, so = list(bi), list(bo)
     if all(x in si for x in so) and len(so) < len(si):
@@ -198,7 +200,7 @@ def by11(recs, outs, named_in, named_out=None):
     for i, (r, o) in enumerate(zip(recs, outs)):
         bi = [(k, v) for k, v in r if not named_in(k, r)]
         bo = [(k, v) for k, v in o if not named_out(k, r)]
-        if bi != bo:
+        if not M.same_fields(bi, bo):
             return [(_classify(bi, bo), f"record {i+1}: bystander fields {bi} became {bo} (input {r}, output {o})")]
     return []
 
@@ -227,14 +229,14 @@ class Ctx:
     def structured(self, argv, recs, raw_text=None):
         return run_json(self.res, self.main, argv, recs, sigbase=self.sig(), raw_text=raw_text)
 
-    def violation(self, layer, sub, what, argv, recs, expected=None, got=None, structured=False):
+    def violation(self, layer, sub, what, argv, recs, expected=None, got=None, structured=False, extra=None):
         if structured:
             det = {"argv": self.main + ["--ijson", "--ojson"] + argv, "stdin": render_json(recs)}
         else:
             det = {"argv": self.main + FLAT_OUT + argv, "stdin": gen.dkvp(recs)}
         det["expected"] = expected
         det["got"] = got
-        add_violation(self.res, self.sig(layer=layer, sub=sub), f"{self.verb} [{self.opt}]: {what}", det)
+        add_violation(self.res, self.sig(layer=layer, sub=sub, **(extra or {})), f"{self.verb} [{self.opt}]: {what}", det)
 
     def judge(self, argv, recs, outs, byv, exp, one_to_one=True, structured=False, as_multiset=False):
         """byv: bystander findings (model-free); exp: model output (list, entries None = declined record)
@@ -258,9 +260,10 @@ class Ctx:
                 if e is None:
                     bump(self.res, "model_declined_records")
                     continue
-                if e != g:
-                    sub = "field-order" if sorted(map(repr, e)) == sorted(map(repr, g)) else (
-                        "names" if [k for k, _ in e] != [k for k, _ in g] else "values")
+                if not M.same_fields(e, g):
+                    sub = "field-order" if sorted(map(repr, e)) == sorted(map(repr, g)) and e != g else (
+                        "names" if [k for k, _ in e] != [k for k, _ in g] else
+                        "values" if e != g else "nested-key-order")
                     self.violation("model", sub, f"record {i+1}: input {recs[i] if i < len(recs) else '?'} expected {e} got {g}",
                                    argv, recs, expected=exp[:50], got=outs[:50], structured=structured)
                     return False
@@ -495,6 +498,7 @@ def v_rename(cx):
     mode = rng.choice(["plain", "plain", "plain", "self", "r", "r", "gr", "chain"])
     cx.opt = mode
     fresh = ["N1", "N2", "new name", "n.w", "Z*", "a_new", "b2"]
+    exp_lit = None
     if mode in ("plain", "self", "chain"):
         olds = pick_names(rng, recs, 1, 3)
         news = rng.sample(fresh, len(olds))
@@ -523,10 +527,14 @@ def v_rename(cx):
         if rng.random() < 0.3:
             # capture groups in the new name (documented for -r; -g is "global replacement within each field name")
             rx, repl = rng.choice([(("^(.)(.*)$", "^(.)(.*)$", 0), "R_\\1\\2"), (("(b)", "(b)", 0), "<\\1>"),
-                                   (("^(.)", "^(.)", 0), "\\1\\1_")])
+                                   (("^(.)", "^(.)", 0), "\\1\\1_"), (('"(B)"i', "(B)", re.I), "<\\1>"),
+                                   (('"^(a)(.*)$"i', "^(a)(.*)$", re.I), "\\2_\\1")])
             cx.opt = mode + "+capture"
         argv = ["rename"] + (["-g"] if mode == "gr" else []) + ["-r", rx[0] + "," + repl]
         exp = [M.rename_regex(r, rx, repl, gsub=(mode == "gr")) for r in recs]
+        if mode == "gr" and "\\" in repl:
+            # what the listed defect (capture groups not interpolated with -g) would print: the replacement taken literally
+            exp_lit = [M.rename_regex(r, rx, lambda m, repl=repl: repl, gsub=True) for r in recs]
 
         def named(k, r, rx=rx, exp=exp, recs=recs):
             if M.rx_match(rx, k):
@@ -544,6 +552,21 @@ def v_rename(cx):
     else:
         byv = by11(recs, outs, named)
     cx.nontrivial = outs != recs and (F is None or named_share(recs, F))
+    if exp_lit is not None and not byv and len(outs) == len(recs):
+        # narrow signature for exactly that wrong result, judged on each record; those records are then compared with the
+        # literal-replacement expectation so that positions, values and all other records stay under the model
+        # (where the literal new names collide with each other the outcome of renaming onto an existing name is not
+        # documented: the record is recognised by its SET of names and then declined)
+        def lit_names(r):
+            return {re.sub(rx[1], lambda m: repl, k, flags=rx[2]) if M.rx_match(rx, k) else k for k, _ in r}
+        hit = [i for i, (e, l, g) in enumerate(zip(exp, exp_lit, outs))
+               if e is not None and e != g and {k for k, _ in g} == lit_names(recs[i]) and (l is None or l == g)]
+        if hit:
+            i = hit[0]
+            cx.violation("model", "capture-not-interpolated", f"record {i+1}: input {recs[i]} expected {exp[i]} got {outs[i]}: "
+                         f"rename -g -r copies the replacement {repl!r} literally instead of interpolating the capture groups",
+                         argv, recs, expected=exp[:50], got=outs[:50])
+            exp = [exp_lit[i] if i in hit else e for i, e in enumerate(exp)]
     cx.judge(argv, recs, outs, byv, exp)
 
 
@@ -554,7 +577,9 @@ def v_label(cx):
     pool = ["L1", "L2", "l 3", "L.4", "L5", "L6"]
     new = rng.sample(pool, n)
     if rng.random() < 0.3:
-        new[rng.randrange(n)] = rng.choice(NAMES + ["_id"])      # may collide with a later field: model declines
+        # may collide with a later field: the model declines that record, but both model-free checks stay on (the later
+        # fields that are NOT named by a label keep name, value and order; the first n values stay in place)
+        new[rng.randrange(n)] = rng.choice(NAMES + ["_id"])
     if len(set(new)) != len(new):
         new = rng.sample(pool, n)
     cx.opt = f"n{min(n, 3)}"
@@ -571,10 +596,10 @@ def v_label(cx):
             bo = [(k, v) for k, v in o[min(n, len(r)):] if k not in new] if len(o) >= min(n, len(r)) else None
             vals_in = [v for _, v in r[:n]]
             vals_out = [v for _, v in o[:min(n, len(r))]]
-            if bo is None or (bi != bo and not any(x in [k for k, _ in r[n:]] for x in new[:n])):
+            if bo is None or bi != bo:
                 byv = [(_classify(bi, bo or []), f"record {i+1}: fields past the {n} labelled ones changed: {r} -> {o}")]
                 break
-            if vals_in != vals_out and not any(x in [k for k, _ in r[n:]] for x in new[:n]):
+            if vals_in != vals_out:
                 byv = [("value-changed", f"record {i+1}: values of the labelled fields changed: {r} -> {o}")]
                 break
     try:
@@ -582,7 +607,15 @@ def v_label(cx):
     except Decline:
         exp = None
     cx.nontrivial = outs != recs and any(len(r) > n for r in recs)
-    cx.judge(argv, recs, outs, byv, exp)
+    if not cx.judge(argv, recs, outs, byv, exp):
+        return
+    # usage text, also where the model declines the record: "renames the first n fields ... to have the respective name"
+    for i, (r, o) in enumerate(zip(recs, outs)):
+        m = min(n, len(r))
+        if [k for k, _ in o[:m]] != new[:m]:
+            cx.violation("model", "first-n-names", f"record {i+1}: the first {m} fields of {o} are not named {new[:m]} (input {r})", argv, recs, got=outs[:30])
+            return
+    bump(cx.res, "property_checks")
 
 
 def v_regularize(cx):
@@ -618,8 +651,75 @@ def v_regularize(cx):
     cx.judge(argv, recs, outs, byv, exp)
 
 
+def _natural_violation(sub):
+    """-n: 'Sort field names naturally (e.g. 2 before 12)'.  Judged only where that sentence decides: two names with the same
+    non-digit prefix and an all-digit rest must come in numeric order; two names without any digit in lexical order."""
+    for i in range(len(sub)):
+        for j in range(i + 1, len(sub)):
+            a, b = re.fullmatch(r"([^0-9]*)([0-9]*)", sub[i]), re.fullmatch(r"([^0-9]*)([0-9]*)", sub[j])
+            if not a or not b:
+                continue
+            if a.group(2) and b.group(2) and a.group(1) == b.group(1) and int(a.group(2)) > int(b.group(2)):
+                return (sub[i], sub[j])
+            if not a.group(2) and not b.group(2) and sub[i] > sub[j]:
+                return (sub[i], sub[j])
+    return None
+
+
+def v_sort_within_records_sel(cx):
+    """Option forms of the usage text that select the keys to sort: -f {names}, -r {regex}, -r -f {regex} ('combines with -f to
+    treat names as regexes'), each alone or with -n ('Combines with -f/-r').  Where the sorted keys are placed is not
+    documented, so: the other keys keep record order (bystander), the field set is unchanged, the selected keys are ascending."""
+    rng = cx.rng
+    how = rng.choice(["f", "r", "r", "rf"])
+    natural = rng.random() < 0.5
+    cx.opt = how + ("+n" if natural else "")
+    if natural:
+        # numbered name families in which lexical and natural order differ (n10 < n2, w12 < w3 lexically)
+        pool = ["n1", "n2", "n10", "n3", "n20", "n100", "n9", "a", "b", "ab", "x", "é", "A", "sp ace"] + WNAMES
+        recs = gen_stream(rng, names=pool, min_fields=4, max_fields=11, wide_share=0.3)
+    else:
+        recs = gen_stream(rng, wide_share=0.4)
+    if how == "f":
+        F = pick_names(rng, recs, 2, 8, pool=(pool if natural else None))
+        sel = lambda k: k in F                                      # noqa: E731
+        argv = ["sort-within-records", "-f", lst(F)]
+    else:
+        rx = rng.choice([("^n", "^n", 0), ("^w", "^w", 0), ("^[nw]", "^[nw]", 0), ("[0-9]$", "[0-9]$", 0), ("^n[0-9]+$", "^n[0-9]+$", 0),
+                         ('"^W"i', "^W", re.I)] if natural else
+                        [r for r in M.REGEXES if r[0] not in ("^_", "^a$", "^.$")] + [("^w", "^w", 0), ("^[nw]", "^[nw]", 0)])
+        sel = lambda k: M.rx_match(rx, k)                            # noqa: E731
+        argv = ["sort-within-records"] + (["-r", rx[0]] if how == "r" else ["-r", "-f", rx[0]])
+    if natural:
+        argv.insert(rng.choice([1, len(argv)]), "-n")
+    outs = cx.flat(argv, recs)
+    if outs is None:
+        return
+    byv = by11(recs, outs, lambda k, r: sel(k))
+    if not byv:
+        for i, (r, o) in enumerate(zip(recs, outs)):
+            if sorted(r) != sorted(o):
+                byv = [("changed", f"record {i+1}: field set changed {r} -> {o}")]
+                break
+    cx.nontrivial = outs != recs and any(sum(1 for k, _ in r if sel(k)) >= 2 and any(not sel(k) for k, _ in r) for r in recs)
+    if byv:
+        cx.judge(argv, recs, outs, byv, None)
+        return
+    bump(cx.res, "bystander_checks")
+    for i, o in enumerate(outs):
+        sub = [k for k, _ in o if sel(k)]
+        bad = _natural_violation(sub) if natural else next(((x, y) for x, y in zip(sub, sub[1:]) if x > y), None)
+        if bad:
+            cx.violation("model", "named-not-sorted", f"record {i+1}: selected keys {sub} are not in ascending {'natural' if natural else 'lexical'} "
+                         f"order ({bad[0]} before {bad[1]}): {o}", argv, recs, got=outs[:30])
+            return
+    bump(cx.res, "property_checks")
+
+
 def v_sort_within_records(cx):
     rng = cx.rng
+    if rng.random() < 0.5:
+        return v_sort_within_records_sel(cx)
     mode = rng.choice(["plain", "plain", "f", "natural"])
     cx.opt = mode
     if mode == "natural":
@@ -783,6 +883,14 @@ def v_fill_empty(cx):
                 bump(cx.res, "equivalence_checks")
 
 
+SEP_ALIAS = {";": "semicolon", "|": "pipe", "/": "slash", ":": "colon"}     # mlr help list-separator-aliases
+
+
+def _sep_arg(rng, sep):
+    """The separator as typed on the command line: itself, or (a fixed share) its documented alias name."""
+    return SEP_ALIAS[sep] if sep in SEP_ALIAS and rng.random() < 0.3 else sep
+
+
 NEST_VALS = ["a;b;c", "solo", "", "x;y", ";;", "a|b", "p/q/r", "1;2;3;4;5;6;7;8;9;10;11;12;13", "a;", ";z"]
 
 
@@ -804,9 +912,9 @@ def v_nest_explode_values(cx):
     short = across == "records" and rng.random() < 0.4
     cx.opt = across + ("+evar" if short else "") + ("+fs" if fs != ";" else "")
     if short:
-        argv = ["nest", "--evar", fs, "-f", f]
+        argv = ["nest", "--evar", _sep_arg(rng, fs), "-f", f]
     else:
-        argv = ["nest", "--explode", "--values", f"--across-{across}", "-f", f] + (["--nested-fs", fs] if fs != ";" or rng.random() < 0.3 else [])
+        argv = ["nest", "--explode", "--values", f"--across-{across}", "-f", f] + (["--nested-fs", _sep_arg(rng, fs)] if fs != ";" or rng.random() < 0.3 else [])
     outs = cx.flat(argv, recs)
     if outs is None:
         return
@@ -863,16 +971,93 @@ def v_nest_explode_pairs(cx):
             r.insert(rng.randint(0, len(r)), (f, v))
     cx.opt = across + ("+seps" if (fs, ps) != (";", ":") else "") + ("+empty" if empties else "")
     argv = ["nest", "--explode", "--pairs", f"--across-{across}", "-f", f]
-    if (fs, ps) != (";", ":"):
-        argv += ["--nested-fs", fs, "--nested-ps", ps]
+    if (fs, ps) != (";", ":") or rng.random() < 0.2:
+        argv += ["--nested-fs", _sep_arg(rng, fs), "--nested-ps", _sep_arg(rng, ps)]
     outs = cx.flat(argv, recs)
     if outs is None:
         return
-    fn = M.nest_explode_pairs_records if across == "records" else M.nest_explode_pairs_fields
-    groups = [fn(r, f, fs, ps) for r in recs]
-    byv = _by_groups(recs, outs, lambda k, r: k == f or k not in dict(r))
-    exp = None if any(g is None for g in groups) else [o for g in groups for o in g]
     cx.nontrivial = outs != recs
+    jrecs = recs
+    if across == "records":
+        # the witness decides, not the stream: an input record that yields NO output record although its field is the empty
+        # string is the listed defect; it is recorded once and taken out, and the bystander + model comparison goes on with
+        # the remaining records.  A vanished record whose value is not empty keeps the general sub 'record-vanished'.
+        got_ids = {dict(o).get("_id") for o in outs}
+        gone = [r for r in recs if dict(r)["_id"] not in got_ids]
+        if gone and all(dict(r).get(f) == "" for r in gone):
+            cx.violation("bystander", "record-vanished-empty-value",
+                         f"{len(gone)} input record(s) whose {f} is the empty string produce no output record at all (all other "
+                         f"fields lost), e.g. {gone[0]}", argv, recs, got=outs[:50])
+            jrecs = [r for r in recs if dict(r)["_id"] in got_ids]
+    fn = M.nest_explode_pairs_records if across == "records" else M.nest_explode_pairs_fields
+    groups = [fn(r, f, fs, ps) for r in jrecs]
+    byv = _by_groups(jrecs, outs, lambda k, r: k == f or k not in dict(r))
+    exp = None if any(g is None for g in groups) else [o for g in groups for o in g]
+    cx.judge(argv, jrecs, outs, byv, exp, one_to_one=False)
+
+
+NEST_FAMILIES = [(["x", "y"], ("^[xy]$", "^[xy]$", 0)), (["n.f", "n.g", "n.h"], ("^n\\.", "^n\\.", 0)),
+                 (["ab", "abc"], ("^ab", "^ab", 0)), (["x", "Y", "y"], ('"^y"i', "^y", re.I))]
+
+
+def v_nest_explode_regex(cx):
+    """nest --explode ... -r {regex}: 'Like -f but treat arguments as a regular expression. Match all field names and operate on
+    each in record order.'  Model = the -f model applied to every matching field of the input record, in record order."""
+    rng = cx.rng
+    kind = rng.choice(["values", "pairs"])
+    across = rng.choice(["records", "fields"])
+    fam, rx = rng.choice(NEST_FAMILIES)
+    fs = rng.choice([";", ";", "|"])
+    ps = rng.choice([":", ":", "~"])
+    recs = gen_stream(rng, names=[n for n in NAMES if not M.rx_match(rx, n) and n not in fam])
+    for r in recs:
+        for j, f in enumerate(rng.sample(fam, len(fam))):
+            if rng.random() < 0.6:
+                if kind == "values":
+                    v = rng.choice(NEST_VALS).replace(";", fs) if rng.random() < 0.85 else rng.choice(VALS)
+                else:
+                    ks = rng.sample([f"k{j}1", f"k{j}2", f"k {j}3", f"K{j}.4"], rng.randint(1, 3))     # key pools disjoint between fields
+                    v = fs.join(k + ps + rng.choice(["1", "v", "", "a b"]) for k in ks)
+                r.insert(rng.randint(0, len(r)), (f, v))
+    cx.opt = f"{kind}+{across}+r"
+    argv = ["nest", "--explode", f"--{kind}", f"--across-{across}", "-r", rx[0]]
+    if fs != ";" or (kind == "pairs" and ps != ":"):
+        argv += ["--nested-fs", _sep_arg(rng, fs)] + (["--nested-ps", _sep_arg(rng, ps)] if kind == "pairs" else [])
+    outs = cx.flat(argv, recs)
+    if outs is None:
+        return
+    fn = {("values", "records"): lambda r, f: M.nest_explode_values_records(r, f, fs),
+          ("values", "fields"): lambda r, f: M.nest_explode_values_fields(r, f, fs),
+          ("pairs", "records"): lambda r, f: M.nest_explode_pairs_records(r, f, fs, ps),
+          ("pairs", "fields"): lambda r, f: M.nest_explode_pairs_fields(r, f, fs, ps)}[(kind, across)]
+
+    def model(r, limit=None):
+        cur = [list(r)]
+        for f in [k for k, _ in r if M.rx_match(rx, k)][:limit]:
+            nxt = []
+            for x in cur:
+                g = fn(x, f)
+                if g is None:
+                    return None
+                nxt += g
+            cur = nxt
+        return cur
+    groups = [model(r) for r in recs]
+    matched = lambda k: M.rx_match(rx, k) or any(re.fullmatch(re.escape(f) + r"_[0-9]+", k) for f in fam)      # noqa: E731
+    byv = _by_groups(recs, outs, lambda k, r: (matched(k) if kind == "values" else (M.rx_match(rx, k) or k not in dict(r))))
+    exp = None if any(g is None for g in groups) else [o for g in groups for o in g]
+    cx.nontrivial = outs != recs and any(sum(1 for k, _ in r if M.rx_match(rx, k)) >= 2 for r in recs)
+    if exp is not None and not byv and across == "records" and outs != exp:
+        # narrow signature, decided on the output itself: exactly the stream in which only the FIRST matching field of each
+        # record was exploded (the others left as they were); the comparison then continues against that stream
+        g1 = [model(r, limit=1) for r in recs]
+        alt = None if any(g is None for g in g1) else [o for g in g1 for o in g]
+        if alt == outs:
+            bad = next(r for r, g, h in zip(recs, groups, g1) if g != h)
+            cx.violation("model", "only-first-matching-field-exploded",
+                         f"nest --explode --{kind} --across-records -r {rx[0]}: only the first matching field of a record is exploded, the "
+                         f"other matching fields are left as they are, e.g. input {bad}", argv, recs, expected=exp[:50], got=outs[:50])
+            exp = alt
     cx.judge(argv, recs, outs, byv, exp, one_to_one=False)
 
 
@@ -895,7 +1080,7 @@ def v_nest_implode(cx):
         recs.append(sh)
     short = rng.random() < 0.4
     cx.opt = ("ivar" if short else "long") + ("+fs" if fs != ";" else "")
-    argv = ["nest", "--ivar", fs, "-f", f] if short else ["nest", "--implode", "--values", "--across-records", "-f", f] + (["--nested-fs", fs] if fs != ";" else [])
+    argv = ["nest", "--ivar", _sep_arg(rng, fs), "-f", f] if short else ["nest", "--implode", "--values", "--across-records", "-f", f] + (["--nested-fs", _sep_arg(rng, fs)] if fs != ";" else [])
     outs = cx.flat(argv, recs)
     if outs is None:
         return
@@ -949,10 +1134,18 @@ def v_reshape_w2l(cx):
         ok = cx.judge(argv, recs, outs, byv, None, one_to_one=False)
     else:
         bump(cx.res, "bystander_checks")
-        # per input: the group of outputs as a multiset (pair order within a group: -i order vs record order is not documented)
+        # per input: the group of outputs, as a sequence.  The usage example emits the pairs of one input in record order, which
+        # there is also the -i / -r argument order; the docs do not say which of the two rules it is, so either is accepted -
+        # but one and the same rule for every record of the stream (hash order or any other permutation is neither).
         by_id = {}
         for o in outs:
             by_id.setdefault(dict(o)["_id"], []).append(o)
+
+        def arg_rank(k):
+            if mode == "i":
+                return F.index(k)
+            return next(j for j, x in enumerate(rxs) if M.rx_match(x, k))
+        rules_alive = {"record-order", "argument-order"}
         for r, g in zip(recs, groups):
             if g is None:
                 bump(cx.res, "model_declined_records")
@@ -962,6 +1155,14 @@ def v_reshape_w2l(cx):
                 cx.violation("model", "stream", f"input {r}: expected long records {g} got {got}", argv, recs, expected=g, got=got)
                 ok = False
                 break
+            if len(g) > 1:
+                alts = {"record-order": g, "argument-order": sorted(g, key=lambda o: arg_rank(dict(o)[kname]))}
+                rules_alive = {x for x in rules_alive if alts[x] == got}
+                if not rules_alive:
+                    cx.violation("model", "pair-order", f"input {r}: the long records come neither in record order nor in -i/-r argument "
+                                 f"order (consistently over the stream): got {got}", argv, recs, expected=g, got=got)
+                    ok = False
+                    break
             bump(cx.res, "model_records_checked", len(got))
     cx.nontrivial = outs != recs and (mode != "i" or named_share(recs, F))
 
@@ -1015,14 +1216,24 @@ def v_reshape_l2w(cx):
     byv = []
     if sorted(map(repr, want)) != sorted(map(repr, got)):
         byv = [("changed", f"the other fields are not preserved bucket by bucket: expected {want[:5]} got {got[:5]}")]
+    passed = wide = None
     try:
         passed, wide = M.reshape_long_to_wide(recs, kname, vname)
         exp = passed + wide
     except Decline:
         exp = None
     cx.nontrivial = outs != recs and len(outs) < len(recs)
-    # emission order across buckets with different other-key sets is not documented: multiset comparison
-    cx.judge(argv, recs, outs, byv, exp, one_to_one=False, as_multiset=True)
+    # emission order across buckets with different other-key NAMES is not documented: multiset comparison then.  With one
+    # shape of other keys the buckets come in first-appearance order (usage example; same reading as nest --implode), and the
+    # records passed through unchanged keep their own order; how the two interleave is not documented.
+    if not cx.judge(argv, recs, outs, byv, exp, one_to_one=False, as_multiset=True) or exp is None:
+        return
+    shapes_n = {tuple(k for k, _ in r if k not in (kname, vname)) for r in recs if kname in dict(r) and vname in dict(r)}
+    if not is_subseq(passed, outs) or (len(shapes_n) == 1 and not is_subseq(wide, outs)):
+        cx.violation("model", "record-order", f"reshape long-to-wide: buckets (one other-key shape: first-appearance order) {wide[:6]} / passed-through "
+                     f"records {passed[:6]} do not keep their order in the output {outs[:8]}", argv, recs, expected=exp[:50], got=outs[:50])
+    else:
+        bump(cx.res, "order_checks")
 
 
 # ==========================================================================================
@@ -1172,6 +1383,47 @@ def v_subs(cx):
                 bump(cx.res, "equivalence_checks")
 
 
+_TS = re.compile(r"(-?[0-9]+)-([0-9]{2})-([0-9]{2})T([0-9]{2}):([0-9]{2}):([0-9]{2})(?:\.([0-9]{1,9}))?Z")
+
+
+def _ts_ns(text):
+    """ISO-8601 GMT timestamp -> nanoseconds since the epoch (proleptic Gregorian, any year), or None."""
+    m = _TS.fullmatch(text)
+    if not m:
+        return None
+    y, mo, d, hh, mi, ss = (int(x) for x in m.groups()[:6])
+    y2 = y - (1 if mo <= 2 else 0)
+    era = y2 // 400
+    yoe = y2 - era * 400
+    doy = (153 * (mo + (-3 if mo > 2 else 9)) + 2) // 5 + d - 1
+    days = era * 146097 + yoe * 365 + yoe // 4 - yoe // 100 + doy - 719468
+    return ((days * 86400 + hh * 3600 + mi * 60 + ss) * 10**9) + int((m.group(7) or "0").ljust(9, "0"))
+
+
+def _float_rounding_class(r, e, g, F, unit, ndec):
+    """e (exact model) and g (mlr) differ.  -> 'inside-int64ns' / 'outside-int64ns' when the ONLY difference is that named
+    timestamp fields are off by no more than a float64 rounding of the scaled input (4 ulp of the value in seconds, plus one
+    unit of the last printed digit); None for any other difference (wrong day/hour, unit flag ignored, field dropped...).
+    The range says whether the input's nanosecond count fits an int64 (inside: exact integer arithmetic is available)."""
+    if [k for k, _ in e] != [k for k, _ in g] or len(r) != len(e):
+        return None
+    cls = None
+    for (k0, v0), (k, ve), (_, vg) in zip(r, e, g):
+        if ve == vg:
+            continue
+        if k0 != k or k not in F or not re.fullmatch(r"-?[0-9]+", v0):
+            return None
+        a, b = _ts_ns(ve), _ts_ns(vg)
+        if a is None or b is None or len(ve.partition(".")[2]) != len(vg.partition(".")[2]):
+            return None
+        t_ns = int(v0) * (10**9 // unit)
+        if abs(a - b) > 4 * abs(t_ns) * 2.0**-52 + 10**(9 - ndec):
+            return None
+        c = "outside-int64ns" if abs(t_ns) >= 2**63 else "inside-int64ns"
+        cls = c if cls in (None, "outside-int64ns") else cls
+    return cls
+
+
 def v_sec2gmt(cx):
     rng = cx.rng
     unit_flag = rng.choice([None, None, None, "--millis", "--micros", "--nanos"])
@@ -1179,7 +1431,7 @@ def v_sec2gmt(cx):
     ndec = rng.choice([0, 0, 1, 3, 6, 9, rng.randint(1, 9)])
     tnames = ["t", "t2", "time.x", "u v"]
     secs = [0, 1, 59, 86399, 86400, 951782400, 1500000000, 1700000000, 2147483647, 2147483648, 4102444800, -1, -86401,
-            1234567890, 253402300799]
+            1234567890, 253402300799, 9223372036, 9223372037, -9223372036, -9223372038]     # +-2^63 ns = +-9223372036.85 s
     recs = gen_stream(rng, names=[n for n in NAMES if n not in tnames])
     ints_only = True
     for r in recs:
@@ -1188,7 +1440,7 @@ def v_sec2gmt(cx):
                 x = rng.random()
                 if x < 0.7:
                     s = rng.choice(secs)
-                    frac = rng.choice([0, 0, 1, 7, 123, 999, 500, 122, 1001]) if unit > 1 else 0
+                    frac = rng.choice([0, 0, 1, 7, 123, 999, 500, 122, 1001, unit - 1, unit // 2 + 1, 123456789 % unit]) if unit > 1 else 0
                     v = str(s * unit + (frac % unit if unit > 1 else 0))
                 elif x < 0.8:
                     v = rng.choice(["abc", "", "2017-07-14", "x1"])
@@ -1220,14 +1472,24 @@ def v_sec2gmt(cx):
                 o.append((k, v))
         exp.append(o if ok else None)
     cx.nontrivial = outs != recs and named_share(recs, F)
-    # precision class for sigs: does the case need sub-second digits from a scaled integer?
-    if not byv:
+    # A named timestamp that is off by no more than a float64 rounding of the scaled integer gets its own narrow signature
+    # (with the magnitude class of the input); it is recorded once per class, the exact text is put in its place and the
+    # comparison of everything else (other fields, other records, equivalence) goes on.  Any other difference goes to judge().
+    if not byv and unit > 1 and len(exp) == len(outs):
+        seen_cls = set()
+        outs = list(outs)
         for i, (e, g) in enumerate(zip(exp, outs)):
-            if e is not None and e != g and unit > 1:
-                cx.violation("model", "scaled-integer-precision",
-                             f"sec2gmt {unit_flag} -{ndec}: record {recs[i]} expected {e} got {g} (exact integer arithmetic)",
-                             argv, recs, expected=exp[:30], got=outs[:30])
-                return
+            if e is None or e == g:
+                continue
+            cls = _float_rounding_class(recs[i], e, g, F, unit, ndec)
+            if cls is None:
+                continue
+            if cls not in seen_cls:
+                seen_cls.add(cls)
+                cx.violation("model", "scaled-integer-float-rounding",
+                             f"sec2gmt {unit_flag} -{ndec}: record {recs[i]} expected {e} got {g} (exact integer arithmetic; input {cls})",
+                             argv, recs, expected=exp[:30], got=outs[:30], extra={"range": cls})
+            outs[i] = e
     if not cx.judge(argv, recs, outs, byv, exp):
         return
     if unit == 1:
@@ -1279,6 +1541,12 @@ def gen_structured(rng, n=None, allow_null=False, allow_empty=True):
     for i in range(n or rng.randint(4, 9)):
         ks = rng.sample(SKEYS + ["m", "arr", "deep"], rng.randint(1, 6))
         rec = [(k, gen_value(rng, 0, allow_null, allow_empty)) for k in ks]
+        if rng.random() < 0.25:
+            # top-level width (incl. _id) at / next to the key-index threshold of 12, so that -f selection by name runs on
+            # indexed records too; the pads are scalars of every type, placed among the other fields
+            target = rng.choice([11, 12, 12, 12, 13, rng.randint(14, 18)]) - 1
+            for w in rng.sample(WNAMES, max(0, target - len(rec))):
+                rec.insert(rng.randint(0, len(rec)), (w, rng.choice(["p", "", M.Num("7"), M.Num("0.50"), True, "1"])))
         rec.insert(rng.randint(0, len(rec)), ("_id", f"r{i+1}"))
         recs.append(rec)
     return recs
@@ -1757,6 +2025,7 @@ VERBS = {
     "regularize": v_regularize, "sort-within-records": v_sort_within_records, "sort-within-records-r": v_sort_within_records_r,
     "unsparsify": v_unsparsify, "sparsify": v_sparsify, "fill-empty": v_fill_empty,
     "nest-explode-values": v_nest_explode_values, "nest-explode-pairs": v_nest_explode_pairs, "nest-implode": v_nest_implode,
+    "nest-explode-regex": v_nest_explode_regex,
     "reshape-wide-to-long": v_reshape_w2l, "reshape-long-to-wide": v_reshape_l2w,
     "flatten": v_flatten, "unflatten": v_unflatten, "json-stringify": v_json_stringify, "json-parse": v_json_parse,
     "sec2gmt": v_sec2gmt, "altkv": v_altkv, "case": v_case, "unspace": v_unspace,
@@ -1836,7 +2105,7 @@ def doc_case(case):
 def run(chk):
     only = getattr(chk, "only", None)
     q = chk.quick()
-    chk.rule = ("v: for each of 27 verb forms, random option sets (present / absent / overlapping / repeated / reversed / regex field "
+    chk.rule = (f"v: for each of {len(VERBS)} verb forms, random option sets (present / absent / overlapping / repeated / reversed / regex field "
                 "lists) x heterogeneous record streams (1-16+ fields, a fixed share >= 12 fields, names with regex metacharacters and "
                 "prefixes of each other, empty values), one mlr process per (option set, stream); i: inverse-pair chains; d: doc examples. "
                 "Non-trivial = output != input and (where the verb takes a field list) the list names >= 1 present and >= 1 absent field "
@@ -1865,8 +2134,19 @@ def run(chk):
     chk.assumptions = [
         "the bystander invariant is never relaxed; the per-verb models decline (counted as skipped / model_declined_records) where the usage "
         "text does not determine the result: renaming or labelling onto a name that already exists elsewhere in the record, repeated names "
-        "in -o/-f lists, a field matching two reorder regexes, cut -o with -r, nest pair pieces without the pair separator, key collisions "
-        "after case/unspace, reshape long-to-wide with missing cells, where sort-within-records -f places the sorted block",
+        "in -o/-f lists, a field matching two reorder regexes or two cut -o -r regexes, nest pair pieces without the pair separator, key "
+        "collisions after case/unspace, reshape long-to-wide with missing cells, where sort-within-records -f/-r places the sorted block "
+        "(label onto a later field's name: the full model declines the record, the model-free checks and 'first n names' stay on)",
+        "structured (JSON) records are compared as typed text: a number never equals the string with the same digits, true never equals 1, "
+        "and key order inside nested maps counts (bystanders and model alike)",
+        "order laws: reshape wide-to-long pairs of one input come in record order or in -i/-r argument order, one rule per stream (the "
+        "usage example does not separate the two); reshape long-to-wide buckets with ONE shape of other keys come in first-appearance order "
+        "and passed-through records keep their order (how the two interleave is not documented); sort-within-records -n is judged only "
+        "between names with the same non-digit prefix and an all-digit rest ('2 before 12') or without digits (lexical)",
+        "nest -r: 'operate on each [matching field] in record order' = the -f model applied field after field; the matching names are "
+        "those of the input record; unsparsify with several -f flags is not documented and not run",
+        "a listed defect is recognised on the witness record/field itself and the comparison continues on the rest of the stream "
+        "(sec2gmt float rounding outside the int64-ns range, nest pairs empty value, rename -g -r literal capture, nest -r first field only)",
         "regexes come from a catalogue whose meaning is identical in RE2 and Python re; case-insensitive regexes use the documented \"...\"i form",
         "case: values are words/digits/empty (title-case word boundaries other than the space are not documented); upper/lower use full Unicode mapping",
         "sub/gsub/ssub: values that look numeric are not judged (the verbs leave numbers alone, the DSL functions return an error; neither is documented)",
